@@ -41,7 +41,11 @@ class Ctx:
         payload: self-contained replay document"""
         sig = dict(sig, clause=clause)
         for i, k in enumerate(self.findings):
-            if all(str(sig.get(f)) == str(v) for f, v in k["match"].items()):
+            def hit(f, v):
+                if f.startswith("has_"):                       # has_kind: "StopIf"  ->  "StopIf" in sig["kinds"]
+                    return v in (sig.get(f[4:] + "s") or [])
+                return str(sig.get(f)) == str(v)
+            if all(hit(f, v) for f, v in k["match"].items()):
                 if k["status"] == "known":
                     self.known_hits[i] = self.known_hits.get(i, 0) + 1
                     return "known"
